@@ -372,46 +372,44 @@ def g3(e: Engine, rep: Report, rule: str):
               reason='the bytes handed to add_lines were read from '
               "io.recv_buffer before it is set to b'' on every path",
               loc=ctx.func.loc())
-    # return_all: slices around EOD
+    # return_all: slices around EOD (locals, aliases and helpers that hand
+    # the two parts back are read through)
     ctx = e.method_ctx(READER, 'return_all')
     where = ctx.func.qname
     rep.functions.add(where)
-    fn = ctx.func.node
-    before_s, after_s = None, None
-    for n in walk_own(fn):
-        if isinstance(n, ast.Subscript) and isinstance(n.slice, ast.Slice) \
-                and ast.unparse(n.value) == 'self.lines':
-            lo = ast.unparse(n.slice.lower) if n.slice.lower else None
-            up = ast.unparse(n.slice.upper) if n.slice.upper else None
-            if lo in (None, '0') and up == 'self.EOD':
-                before_s = n
-            if up is None and lo in ('self.EOD + 1', '1 + self.EOD'):
-                after_s = n
+    g = e.build(ctx, raises=lambda b, n, r: set(),
+                inline=e.inline_same_self(), max_depth=3)
+
+    def sliced(x):
+        """('before' | 'after' | None) for join(self.lines[:EOD]) /
+        join(self.lines[EOD+1:]) - the join may be missing"""
+        if isinstance(x, ast.Call) and isinstance(x.func, ast.Attribute) \
+                and x.func.attr == 'join' and len(x.args) == 1:
+            x = x.args[0]
+        if not (isinstance(x, ast.Subscript) and
+                isinstance(x.slice, ast.Slice) and
+                ast.unparse(x.value) == 'self.lines' and
+                x.slice.step is None):
+            return None
+        lo = ast.unparse(x.slice.lower) if x.slice.lower else None
+        up = ast.unparse(x.slice.upper) if x.slice.upper else None
+        if lo in (None, '0') and up == 'self.EOD':
+            return 'before'
+        if up is None and lo in ('self.EOD + 1', '1 + self.EOD'):
+            return 'after'
+        return None
     rep.evaluations += 2
-    ret_ok = False
-    buf_ok = False
-    names_before, names_after = set(), set()
-    for n in walk_own(fn):
-        if isinstance(n, ast.Assign) and isinstance(n.targets[0], ast.Name):
-            if before_s is not None and any(x is before_s
-                                            for x in ast.walk(n.value)):
-                names_before.add(n.targets[0].id)
-            if after_s is not None and any(x is after_s
-                                           for x in ast.walk(n.value)):
-                names_after.add(n.targets[0].id)
-    for n in walk_own(fn):
-        if isinstance(n, ast.Return) and n.value is not None:
-            used = {x.id for x in ast.walk(n.value)
-                    if isinstance(x, ast.Name)}
-            ret_ok = bool(used & names_before) or any(
-                x is before_s for x in ast.walk(n.value))
-        if isinstance(n, ast.Assign) and any(
-                isinstance(t, ast.Attribute) and t.attr == 'recv_buffer'
-                for t in n.targets):
-            used = {x.id for x in ast.walk(n.value)
-                    if isinstance(x, ast.Name)}
-            buf_ok = bool(used & names_after) or any(
-                x is after_s for x in ast.walk(n.value))
+    rets = [n for n in g.of_kind('stmt') if isinstance(n.ast, ast.Return)
+            and n.frame is g.entry.frame and n.ast.value is not None]
+    ret_ok = bool(rets) and all(
+        sliced(common.expand(g, n.ast.value, n.frame)) == 'before'
+        for n in rets)
+    bufw = [n for n in g.of_kind('stmt') if isinstance(n.ast, ast.Assign)
+            and any(isinstance(t, ast.Attribute) and t.attr == 'recv_buffer'
+                    for t in n.ast.targets)]
+    buf_ok = bool(bufw) and all(
+        sliced(common.expand(g, n.ast.value, n.frame)) == 'after'
+        for n in bufw)
     rep.check(ret_ok, rule, where, 'returns the lines before EOD',
               'return_all does not return exactly lines[:EOD]: the '
               'end-of-data line (or later bytes) end up in the message, or '
@@ -455,6 +453,15 @@ def sentinel_attrs(e: Engine, K: Kinds, cq: str) -> Set[str]:
                                 if kk and kk <= ks('Int') and not (
                                         isinstance(n.value, ast.Constant)
                                         and n.value.value):
+                                    int_attrs.add(t.attr)
+                                elif kk and U in kk and kk <= (
+                                        ks('Int') | frozenset([U])) and \
+                                        isinstance(n.value, (
+                                            ast.Name, ast.Attribute,
+                                            ast.BinOp)):
+                                    # a counter / cursor whose arithmetic
+                                    # the kinds cannot follow (i = self.i;
+                                    # self.i = i + 1): still an index
                                     int_attrs.add(t.attr)
     return none_attrs & int_attrs
 
@@ -655,10 +662,16 @@ def g6(e: Engine, rep: Report, rule: str):
             return n.kind == 'test' and 'max_size' in ast.unparse(n.ast)
 
         def past_eod(n):
-            # the false edge of `self.EOD is None`: these bytes do not
-            # belong to the message, nothing to count or to limit
-            return n.kind == 'test' and \
-                ast.unparse(n.ast) == 'self.EOD is None'
+            # the label of the edge on which `self.EOD is None` is false
+            # (either spelling of the test): these bytes do not belong to
+            # the message, nothing to count or to limit
+            if n.kind != 'test':
+                return None
+            for lab in ('T', 'F'):
+                if (False, 'self.EOD is None') in atoms_of_test(
+                        n.ast, lab == 'T', n.frame):
+                    return lab
+            return None
 
         def counted(n):
             if limit_test(n):
@@ -689,8 +702,10 @@ def g6(e: Engine, rep: Report, rule: str):
             if '-lim' in ev:
                 st = st - {'lim'}
             st = st | frozenset(x for x in ev if x != '-lim')
-            if past_eod(n):
-                return {'T': st, 'F': st | {'lim'}, None: st}
+            lab = past_eod(n)
+            if lab:
+                other = 'F' if lab == 'T' else 'T'
+                return {other: st, lab: st | {'lim'}, None: st}
             return st
         st0 = dataflow.forward(g, frozenset(), tr, lambda a, b: a & b)
         for a in apps:
@@ -719,13 +734,16 @@ def g6(e: Engine, rep: Report, rule: str):
                       'the segmentation' % arg, loc=a.loc(),
                       reason='a size/max_size test on every path between '
                       'the count and the append')
-    if n_app < 2:
-        rep.error('anchor vanished: _append_line sites (%d < 2)' % n_app)
+    if n_app < 1:
+        rep.error('anchor vanished: _append_line sites (%d < 1)' % n_app)
     # (b) counting and the limit test: only message bytes count, and the
     #     decision depends on size / max_size (and "still before EOD") only
     for mname, (m, aug, prm) in sorted(counters.items()):
         ctx = Ctx(m, READER)
-        g = e.build(ctx, raises=lambda b, n, r: set())
+        g = e.build(ctx, raises=lambda b, n, r: set(),
+                    inline=e.inline_same_self(deny=['_append_line',
+                                                    'handle_finished_line']),
+                    max_depth=3)
         fx = e.facts(g)
         where = m.qname
         rep.functions.add(where)
@@ -744,9 +762,12 @@ def g6(e: Engine, rep: Report, rule: str):
                     'MessageTooBig' in ast.unparse(n.ast):
                 rep.evaluations += 1
                 st = fx.at(n) or frozenset()
+                # (a zero-argument predicate of the reader stands for the
+                # tests inside it, which are in the state too)
                 dep = sorted(k for p, k in st if not (
                     'max_size' in k or 'self.size' in k or
-                    k == 'self.EOD is None'))
+                    k == 'self.EOD is None' or (
+                        k.startswith('self._') and k.endswith('()'))))
                 rep.check(not dep, rule, where,
                           'the limit is decided from the byte count alone',
                           'MessageTooBig is raised only under %s: the '
